@@ -135,9 +135,20 @@ def gen_set(rng):
 
 
 def build(case):
+    """The parameter set as a user may have arrived at it: every second expression is assigned AFTER construction
+    (parameter.expression = ...; update_parameter_expression()) - what is saved is the object's current state."""
     from glotaran.parameter import Parameter, Parameters
 
-    return Parameters({p["label"]: Parameter(**p) for p in case["params"]})
+    late = [p["label"] for i, p in enumerate(case["params"]) if p.get("expression") is not None and i % 2 == 0]
+    if not late:
+        return Parameters({p["label"]: Parameter(**p) for p in case["params"]})
+    ps = Parameters({p["label"]: Parameter(**({k: v for k, v in p.items() if k != "expression"} if p["label"] in late else p), **({"value": 0.0, "vary": False} if p["label"] in late and "value" not in p else {}))
+                     for p in case["params"]})
+    exprs = {p["label"]: p["expression"] for p in case["params"] if p["label"] in late}
+    for label, e in exprs.items():
+        ps.get(label).expression = e
+    ps.update_parameter_expression()
+    return ps
 
 
 # ---------------------------------------------------------------- oracle
